@@ -26,6 +26,7 @@ import (
 //                                ack-without-sasl, 903, 904, 908)
 //   authenticate-without-sasl    an AUTHENTICATE line although SASL is not configured
 //   authenticate-before-sasl-ack AUTHENTICATE <mech> before the server's ACK that contains sasl
+//   authenticate-without-new-sasl-ack  a further AUTHENTICATE <mech> without a further ACK naming sasl
 //   authenticate-wrong-mech      AUTHENTICATE <other mechanism name>
 //   payload-before-plus          SASL data before the server asked for it with "AUTHENTICATE +"
 //   payload-encoding             SASL data != base64("\0u\0p") (PLAIN) resp. "+" (EXTERNAL, empty identity)
@@ -105,6 +106,7 @@ type c19srv struct {
 	probe       []string
 	demands     []c19demand
 	saslAckAt   int
+	saslAcks    int // ACK lines naming sasl sent so far (each may start one SASL exchange)
 	plusAt      []int
 	payloads    int
 	requested   map[string]bool
@@ -170,6 +172,9 @@ func (m *c19srv) send(ls []c19line) {
 		}
 		if l.sasl && m.saslAckAt < 0 {
 			m.saslAckAt = at
+		}
+		if l.sasl {
+			m.saslAcks++
 		}
 		if l.plus {
 			m.plusAt = append(m.plusAt, at)
@@ -297,6 +302,8 @@ func (m *c19srv) react(idx int, l string) {
 			}
 			if m.saslAckAt < 0 || idx < m.saslAckAt {
 				m.fail("authenticate-before-sasl-ack", "the client sent "+Q(l)+" before the server acknowledged sasl")
+			} else if m.r.MechLines > m.saslAcks {
+				m.fail("authenticate-without-new-sasl-ack", fmt.Sprintf("the client started SASL %d times (%s) although the server acknowledged sasl %d time(s): an acknowledgement that does not name sasl does not start SASL", m.r.MechLines, Q(l), m.saslAcks))
 			}
 			switch m.p.Cont {
 			case "plus-903", "plus-904":
